@@ -71,6 +71,10 @@ def gen_record(rng, ext, big=False):
             rid = rng.randrange(100, 356)
         payload = known_payload(rng, kind, malformed=rng.random() < 0.3)
         ck = "known:" + kind
+        if rng.random() < 0.12 and (uid, rid) != ("LASF_Spec", 4):
+            # the ids of a known type spelled in another letter case: another user id, the record is kept as it is
+            uid = rng.choice([uid.upper(), uid.lower(), uid.swapcase()])
+            ck = "known_ids_other_case"
     else:
         ulen = rng.choice([0, 1, 5, 15, 16, 16, rng.randrange(0, 17)])
         uid = rand_text(rng, ulen)
@@ -251,7 +255,7 @@ def file_level(ck, n_cases):
     import laspy
     from laspy import VLR
     from laspy.vlrs.vlrlist import VLRList
-    for _ in range(n_cases):
+    for fi in range(n_cases):
         ver = ck.rng.choice(["1.2", "1.4", "1.4"])
         fmt = ck.rng.choice([0, 3] if ver == "1.2" else [0, 3, 6, 7])
         las = laspy.create(point_format=fmt, file_version=ver)
@@ -261,6 +265,14 @@ def file_level(ck, n_cases):
             if (u, r) == ("LASF_Spec", 4) or len(p) > 65535:
                 continue
             recs.append((u, r, d, p))
+        if fi < 4:
+            # whatever the seed: a VLR block of more than 64 KiB before the first point (one maximal record; two large ones; many small ones)
+            big = [[("verif_big", 1, "maximal payload", bytes((i * 3) & 0xFF for i in range(65535)))],
+                   [("verif_big", 2, "first half", bytes((i * 5) & 0xFF for i in range(40000))), ("verif_big", 3, "second half", bytes((i * 7) & 0xFF for i in range(40000)))],
+                   [("verif_many", 10 + j, f"record {j}", bytes([j]) * 1000) for j in range(70)],
+                   [("verif_big", 4, "maximal", bytes([9]) * 65535), ("verif_big", 5, "maximal too", bytes([8]) * 65535)]][fi]
+            recs = recs[:1] + big + recs[1:2]
+            ck.count("vlr_block>64KiB")
         erecs = []
         if ver == "1.4":
             for _ in range(ck.rng.randrange(0, 3)):
